@@ -127,3 +127,10 @@ package core
 //@   requires sameEpoch(fcontent(groupFileOf(bp.store)), fcontent(shareFileOf(bp.store))) && sameEpoch(groupEnc(group), shareEnc(share))
 //@   call SaveShare#0: assert [C13:a-crash-between-the-two-writes-leaves-group-and-share-of-one-epoch] sameEpoch(fcontent(groupFileOf(bp.store)), fcontent(shareFileOf(bp.store)))
 //@   ensures [C13:a-stored-dkg-output-is-a-matching-group-and-share] err == nil ==> sameEpoch(fcontent(groupFileOf(bp.store)), fcontent(shareFileOf(bp.store)))
+
+// ---- C07: a reshared group is accepted only if it keeps the chain's identity ------------------------------------------
+//@ func (*BeaconProcess).validateGroupTransition(bp, oldGroup, newGroup) (err)
+//@   props C07
+//@   requires bp.log != nil && bp.opts != nil
+//@   ensures [C07:accepted-new-group-keeps-genesis-time-period-id-and-seed] err == nil && oldGroup != nil ==> newGroup.GenesisTime == oldGroup.GenesisTime && newGroup.Period == oldGroup.Period && common.canonID(newGroup.ID) == common.canonID(oldGroup.ID) && bytesEq(newGroup.GenesisSeed, oldGroup.GenesisSeed)
+//@   ensures [C07:missing-new-group-is-rejected] oldGroup == nil && newGroup == nil ==> err != nil
